@@ -265,6 +265,9 @@ class DefGen:
             for _ in range(n_units):
                 d["units"].append({"ident": self.ident(multiword=r.random() < 0.4), "symbol": self.symbol(used_syms), "prefix": None,
                                    "scale": None, "doc": r.choice([None, None, "doc " + self.word()])})
+            if n_units >= 2 and r.random() < 0.2:
+                i, j = r.sample(range(n_units), 2)
+                d["units"][j]["symbol"] = d["units"][i]["symbol"]        # two distinct units sharing one symbol
             d["attrs"] = list(range(n_units))
             r.shuffle(d["attrs"])
             return d
